@@ -2277,7 +2277,10 @@ impl Compiler {
 
             self.compile_node(catch_block.block, ctx.with_register(try_result_register))?;
 
-            if !is_last_catch {
+            // A map pattern on the last catch block might not match the caught value
+            let rethrow_if_unmatched = is_last_catch && !type_check_jump_placeholders.is_empty();
+
+            if !is_last_catch || rethrow_if_unmatched {
                 // Jump to the finally block at the end of the catch block
                 self.push_op_without_span(Jump, &[]);
                 finally_jump_placeholders.push(self.push_offset_placeholder());
@@ -2288,6 +2291,13 @@ impl Compiler {
             }
 
             self.pop_span(); // catch block
+
+            if rethrow_if_unmatched {
+                // None of the catch blocks accepted the caught value, so throw it again
+                self.push_span(ctx.node_with_span(catch_block.arg), ctx.ast);
+                self.push_op(Throw, &[catch_register]);
+                self.pop_span();
+            }
         }
 
         self.pop_register()?; // catch_register
